@@ -361,6 +361,9 @@ func extractOption(nodes map[string]*chanCall, opts ...Option) (map[string][]any
 
 			if len(path.path) == 1 {
 				if len(opt.options) == 0 {
+					if opt.stateModifier != nil && (curNode.action.optionType != nil || curNode.action.isPassthrough) {
+						return nil, fmt.Errorf("a state modifier can only be designated to a graph node, node[%s] is none", path)
+					}
 					if opt.maxRunSteps > 0 {
 						if curNode.action.optionType != nil || curNode.action.isPassthrough {
 							return nil, fmt.Errorf("a run-time step limit can only be designated to a graph node, node[%s] is none", path)
